@@ -1,1 +1,240 @@
-//! C06 harnesses (not written yet).
+//! C06 — rotations permute bits cyclically and are mutually inverse.
+//!
+//! Oracle on the model value `(n, v)`, `0 <= k <= n`:
+//!   rotl(k): n = 0 -> unchanged, else ((v << k) | (v >> (n-k))) mod 2^n
+//!   rotr(k): n = 0 -> unchanged, else ((v >> k) | (v << (n-k))) mod 2^n
+//! compared with the *raw storage* of the result (the rotation builds fresh storage, so the
+//! padding bits and spare words of the new storage are part of what is compared), length
+//! unchanged. The statement's own wording ("the bit at index i moves to (i +/- k) mod n") is
+//! asserted in addition for a symbolic index i, and the consequences (rotr after rotl is the
+//! identity, rotl(k) = rotr(n-k), popcount unchanged) are asserted directly on the code's
+//! results in the `cons` harnesses. `k > n` is outside the property (precondition).
+use crate::big::Big;
+use crate::nd;
+use crate::scopes::*;
+use bva::{Bit, BitVector, Bv, Bvd, Bvf};
+
+#[inline(always)]
+fn rotl_model(v: Big, n: usize, k: usize) -> Big {
+    if n == 0 {
+        v
+    } else {
+        v.shl(k).or(v.shr(n - k)).trunc(n)
+    }
+}
+
+#[inline(always)]
+fn rotr_model(v: Big, n: usize, k: usize) -> Big {
+    if n == 0 {
+        v
+    } else {
+        v.shr(k).or(v.shl(n - k)).trunc(n)
+    }
+}
+
+/// (i + k) mod n for i < n, k <= n, without a division.
+#[inline(always)]
+fn addmod(i: usize, k: usize, n: usize) -> usize {
+    let j = i + k;
+    if j >= n {
+        j - n
+    } else {
+        j
+    }
+}
+
+#[inline(always)]
+fn popcount(v: Big) -> u32 {
+    v.lo.count_ones() + v.hi.count_ones()
+}
+
+/// Witnesses. `multi`: scope with >= 2 words of `$B` bits, every length; `hi`: the same
+/// scope restricted to lengths above one word (no spare word possible); `single`: one-word
+/// scope; `lo`: multi-word scope restricted to lengths of at most one word (spare word).
+macro_rules! rot_wit {
+    (hi, $B:literal, $n:ident, $k:ident, $v:ident, $cap:expr) => {
+        w!($n > 0 && $k == $n && !$v.is_zero(), "k = n on a non-zero vector");
+        w!($k > 0 && $k < $n && ($n - $k == $B || $k == $B) && $v.bit($B - 1) && $v.bit($B) && !$v.bit($B + 1),
+           "run of ones straddling a word boundary exactly at the rotation split");
+        w!($n > $B && $n % $B == 0 && $k % $B == 1 && $v.bit($n - 1) && $v.bit(0),
+           "len a multiple of the word size, k one past a word multiple, both end bits set");
+        w!($n > $B + 1 && $n % $B != 0 && $k == $n - 1 && $v.bit($n - 1), "partial top word, k = n - 1, top bit set");
+    };
+    (multi, $B:literal, $n:ident, $k:ident, $v:ident, $cap:expr) => {
+        w!($n == 0, "empty vector");
+        rot_wit!(hi, $B, $n, $k, $v, $cap);
+        w!($cap >= $n + $B && $k > 0 && $k < $n && $v.bit($n - 1), "proper rotation with a spare storage word, top bit set");
+    };
+    (single, $B:literal, $n:ident, $k:ident, $v:ident, $cap:expr) => {
+        w!($n == 0, "empty vector");
+        w!($n > 0 && $k == $n && !$v.is_zero(), "k = n on a non-zero vector");
+        w!($n == $B && $k == 1 && $v.bit($n - 1) && $v.bit(0), "len exactly the word size, both end bits set");
+        w!($n > 2 && $n < $B && $k == $n - 1 && $v.bit($n - 1), "partial word, k = n - 1, top bit set");
+    };
+    (lo, $B:literal, $n:ident, $k:ident, $v:ident, $cap:expr) => {
+        rot_wit!(single, $B, $n, $k, $v, $cap);
+        w!($cap >= $n + $B && $k > 0 && $k < $n && $v.bit($n - 1), "proper rotation with a spare storage word, top bit set");
+    };
+}
+
+/// Symbolic length in `lo..=hi`.
+#[inline(always)]
+fn lenin(lo: usize, hi: usize) -> usize {
+    let l = nd::upto(hi);
+    nd::assume(l >= lo);
+    l
+}
+
+/// `Bvf`: rotl and rotr in one harness (symbolic choice).
+macro_rules! h_rot_f {
+    ($name:ident, $unw:literal, $a:expr, $kind:ident, $B:literal) => {
+        harness!($name, $unw, {
+            let (mut a, ra) = $a;
+            let n = ra.len;
+            let v = ra.v;
+            let k = nd::upto(n);
+            rot_wit!($kind, $B, n, k, v, ra.cap);
+            let left = nd::bool();
+            let want = if left {
+                a.rotl(k);
+                rotl_model(v, n, k)
+            } else {
+                a.rotr(k);
+                rotr_model(v, n, k)
+            };
+            let r = a.into_raw();
+            assert!(r.len == n, "C06: rotation changed the length");
+            assert!(r.v == want, "C06: storage after rotation != cyclic rotation of the value");
+            // the statement, literally: bit i moves to (i + k) mod n resp. (i - k) mod n
+            if n > 0 {
+                let i = nd::upto(n - 1);
+                let j = if left { addmod(i, k, n) } else { addmod(i, n - k, n) };
+                assert!(r.v.bit(j) == v.bit(i), "C06: bit i did not move to (i +/- k) mod n");
+            }
+        });
+    };
+}
+
+/// Consequences, asserted on the code's results only (no model), cheap scopes; three
+/// harnesses so that each contains two rotations only.
+macro_rules! cons_prelude {
+    ($a:ident, $ra:ident, $n:ident, $k:ident, $gen:expr) => {
+        let ($a, $ra) = $gen;
+        let $n = $ra.len;
+        let $k = nd::upto($n);
+        w!($n == 0, "empty vector");
+        w!($n > 0 && $k == $n && !$ra.v.is_zero(), "k = n on a non-zero vector");
+        w!($k > 0 && $k < $n && !$ra.v.is_zero() && !$ra.v.not().trunc($n).is_zero(), "proper rotation of a non-uniform vector");
+    };
+}
+macro_rules! h_rot_cons {
+    ($id:ident, $eq:ident, $pop:ident, $unw:literal, $gen:expr) => {
+        h_rot_cons!($id, $eq, $unw, $gen);
+        harness!($pop, $unw, {
+            cons_prelude!(a, ra, n, k, $gen);
+            let mut x = a.clone();
+            if nd::bool() {
+                x.rotl(k);
+            } else {
+                x.rotr(k);
+            }
+            assert!(popcount(x.into_raw().v) == popcount(ra.v), "C06: rotation changed the number of set bits");
+        });
+    };
+    ($id:ident, $eq:ident, $unw:literal, $gen:expr) => {
+        harness!($id, $unw, {
+            cons_prelude!(a, ra, n, k, $gen);
+            let mut x = a.clone();
+            x.rotl(k);
+            x.rotr(k);
+            assert!(x.into_raw() == ra, "C06: rotl(k) followed by rotr(k) is not the identity");
+        });
+        harness!($eq, $unw, {
+            cons_prelude!(a, ra, n, k, $gen);
+            let mut l = a.clone();
+            l.rotl(k);
+            let mut r = a.clone();
+            r.rotr(n - k);
+            assert!(l.into_raw() == r.into_raw(), "C06: rotl(k) != rotr(n-k)");
+        });
+    };
+}
+
+/// One rotation per harness: heap-backed subjects (the rotation allocates fresh storage of
+/// the subject's concrete number of words) and `Bvf` with wide words (every loop iteration
+/// contains a `% len` on a symbolic 64-bit length, the dominating cost).
+macro_rules! h_rot_d {
+    ($name:ident, $unw:literal, $a:expr, $op:ident, $model:ident, $kind:ident, $B:literal) => {
+        harness!($name, $unw, {
+            let (mut a, ra) = $a;
+            let n = ra.len;
+            let v = ra.v;
+            let k = nd::upto(n);
+            rot_wit!($kind, $B, n, k, v, ra.cap);
+            a.$op(k);
+            let r = a.into_raw();
+            assert!(r.len == n, "C06: rotation changed the length");
+            assert!(r.v == $model(v, n, k), "C06: storage after rotation != cyclic rotation of the value");
+            assert!(r.len <= r.cap, "C06: len > capacity");
+        });
+    };
+}
+
+// ---- Bvf ---------------------------------------------------------------------------------
+h_rot_f!(c06_q_f8x1, 4, f8x1(anylen(8)), single, 8);
+h_rot_f!(c06_q_f8x2, 6, f8x2(anylen(16)), multi, 8);
+h_rot_f!(c06_q_f8x3, 8, f8x3(anylen(24)), multi, 8);
+h_rot_f!(c06_q_f16x2, 6, f16x2(anylen(32)), multi, 16);
+h_rot_d!(c06_q_rotl_f64x1, 4, f64x1(anylen(64)), rotl, rotl_model, single, 64);
+h_rot_d!(c06_q_rotr_f64x1, 4, f64x1(anylen(64)), rotr, rotr_model, single, 64);
+h_rot_d!(c06_q_rotl_f64x2_lo, 4, f64x2(anylen(64)), rotl, rotl_model, lo, 64);
+h_rot_d!(c06_q_rotr_f64x2_lo, 4, f64x2(anylen(64)), rotr, rotr_model, lo, 64);
+h_rot_d!(c06_q_rotl_f64x2_hi, 6, f64x2(lenin(65, 128)), rotl, rotl_model, hi, 64);
+h_rot_d!(c06_q_rotr_f64x2_hi, 6, f64x2(lenin(65, 128)), rotr, rotr_model, hi, 64);
+h_rot_f!(c06_t_f8x4, 10, f8x4(anylen(32)), multi, 8);
+h_rot_f!(c06_t_f16x1, 4, f16x1(anylen(16)), single, 16);
+h_rot_f!(c06_t_f32x2, 6, f32x2(anylen(64)), multi, 32);
+h_rot_f!(c06_t_f64x2, 6, f64x2(anylen(128)), multi, 64);
+h_rot_d!(c06_t_rotl_fuszx2, 6, fuszx2(anylen(128)), rotl, rotl_model, multi, 64);
+h_rot_d!(c06_t_rotr_fuszx2, 6, fuszx2(anylen(128)), rotr, rotr_model, multi, 64);
+h_rot_d!(c06_t_rotl_f64x3, 8, f64x3(anylen(192)), rotl, rotl_model, multi, 64);
+h_rot_d!(c06_t_rotr_f64x3, 8, f64x3(anylen(192)), rotr, rotr_model, multi, 64);
+h_rot_d!(c06_t_rotl_f128x2, 6, f128x2(anylen(256)), rotl, rotl_model, multi, 128);
+h_rot_d!(c06_t_rotr_f128x2, 6, f128x2(anylen(256)), rotr, rotr_model, multi, 128);
+
+h_rot_cons!(c06_q_cons_inv_f8x2, c06_q_cons_eq_f8x2, c06_q_cons_pop_f8x2, 6, f8x2(anylen(16)));
+h_rot_cons!(c06_t_cons_inv_f8x3, c06_t_cons_eq_f8x3, c06_t_cons_pop_f8x3, 8, f8x3(anylen(24)));
+// (popcount equality across a symbolic rotation of 32 bits does not finish in 25 min: not included)
+h_rot_cons!(c06_t_cons_inv_f16x2, c06_t_cons_eq_f16x2, 6, f16x2(anylen(32)));
+
+// ---- Bvd: W allocated words, every len 0..=64 W (spare words whenever len <= 64 (W-1)) ------
+h_rot_d!(c06_q_rotl_bvd1, 4, bvd1(anylen(64)), rotl, rotl_model, single, 64);
+h_rot_d!(c06_q_rotr_bvd1, 4, bvd1(anylen(64)), rotr, rotr_model, single, 64);
+h_rot_d!(c06_q_rotl_bvd2_lo, 4, bvd2(anylen(64)), rotl, rotl_model, lo, 64);
+h_rot_d!(c06_q_rotr_bvd2_lo, 4, bvd2(anylen(64)), rotr, rotr_model, lo, 64);
+h_rot_d!(c06_q_rotl_bvd2_hi, 6, bvd2(lenin(65, 128)), rotl, rotl_model, hi, 64);
+h_rot_d!(c06_q_rotr_bvd2_hi, 6, bvd2(lenin(65, 128)), rotr, rotr_model, hi, 64);
+h_rot_d!(c06_t_rotl_bvd3, 8, bvd3(anylen(192)), rotl, rotl_model, multi, 64);
+h_rot_d!(c06_t_rotr_bvd3, 8, bvd3(anylen(192)), rotr, rotr_model, multi, 64);
+
+// ---- Bv, inline and heap mode ----------------------------------------------------------------
+h_rot_d!(c06_q_rotl_bvfix, 6, bvfix(anylen(128)), rotl, rotl_model, multi, 64);
+h_rot_d!(c06_t_rotr_bvfix, 6, bvfix(anylen(128)), rotr, rotr_model, multi, 64);
+h_rot_d!(c06_t_rotl_bvdyn2, 6, bvdyn2(anylen(128)), rotl, rotl_model, multi, 64);
+h_rot_d!(c06_q_rotr_bvdyn2, 6, bvdyn2(anylen(128)), rotr, rotr_model, multi, 64);
+h_rot_d!(c06_t_rotl_bvdyn1, 4, bvdyn1(anylen(64)), rotl, rotl_model, single, 64);
+h_rot_d!(c06_t_rotr_bvdyn1, 4, bvdyn1(anylen(64)), rotr, rotr_model, single, 64);
+h_rot_d!(c06_t_rotl_bvdyn3, 8, bvdyn3(anylen(192)), rotl, rotl_model, multi, 64);
+h_rot_d!(c06_t_rotr_bvdyn3, 8, bvdyn3(anylen(192)), rotr, rotr_model, multi, 64);
+
+/// The empty `Bvd` without any storage word.
+harness!(c06_q_bvd0, 2, {
+    let (mut a, ra) = bvd0(0);
+    w!(ra.cap == 0 && ra.len == 0, "no storage at all");
+    if nd::bool() {
+        a.rotl(0);
+    } else {
+        a.rotr(0);
+    }
+    assert!(a.into_raw() == ra, "C06: rotating the empty vector changed it");
+});
